@@ -16,6 +16,9 @@ pub struct Inst {
     pub ops: Vec<Op>,
     /// thread that executes op i (modulo the number of threads); construction uses entry 0
     pub threads: Vec<u8>,
+    /// input amplitude 10^amp_exp (down to the subnormal range, where per-thread FPU modes matter)
+    #[serde(default)]
+    pub amp_exp: i16,
 }
 
 #[derive(Clone, Debug, Serialize, Deserialize)]
@@ -92,22 +95,35 @@ fn run(c: &Case) -> Outcome {
     let mut o = Outcome::default();
     let opts = HistOpts { envelope: true, record_out: true, quant32: false, stop_on_err: false };
     let nthreads = (c.n_threads as usize).clamp(1, 16);
-    let insts: Vec<(Config, Signal, &Inst)> = c.instances.iter().map(|i| (i.cfg.sanitized().0, Signal::Noise { seed: i.seed, amp: 1.0 }, i)).collect();
+    let insts: Vec<(Config, Signal, &Inst)> = c.instances.iter().map(|i| (i.cfg.sanitized().0, Signal::Noise { seed: i.seed, amp: 10f64.powi(i.amp_exp as i32) }, i)).collect();
     o.class(format!("threads:{}", nthreads));
     o.class(format!("instances:{}", insts.len()));
-    // reference: every instance alone, on this thread
+    // reference: every instance alone, each on a thread of its own that has done nothing else
     let mut reference = vec![];
     for (cfg, sig, inst) in &insts {
-        let mut a = Any::new(cfg.f32);
-        if let Err(e) = a.construct(cfg, &opts) {
-            o.fail("construct-rejected", e);
-            return o;
+        let r: Result<Vec<Digest>, String> = std::thread::scope(|s| {
+            s.spawn(|| {
+                let mut a = Any::new(cfg.f32);
+                a.construct(cfg, &opts)?;
+                for (i, op) in inst.ops.iter().enumerate() {
+                    a.step(i, op, sig);
+                }
+                Ok(a.digests())
+            })
+            .join()
+            .unwrap_or_else(|_| Err("reference run panicked".to_string()))
+        });
+        match r {
+            Ok(d) => reference.push(d),
+            Err(e) => {
+                o.fail("construct-rejected", e);
+                return o;
+            }
         }
-        for (i, op) in inst.ops.iter().enumerate() {
-            a.step(i, op, sig);
-        }
-        reference.push(a.digests());
         o.class(format!("kind:{}", cfg.kind.name()));
+        if inst.amp_exp < -30 {
+            o.class("signal:subnormal-range");
+        }
     }
     // scheduled run: round r executes op r-1 of every instance (round 0: construction), each on its assigned thread,
     // all threads of a round released together by a barrier
@@ -199,7 +215,7 @@ impl Property for C18 {
         "C18"
     }
     fn rule(&self) -> String {
-        "cases = 2..16 resampler instances (all types, f32/f64) with their own histories and a schedule assigning the construction and every call of every instance to one of 1..16 OS threads; round r runs call r of all instances concurrently (barrier release), so instances overlap with each other and migrate between threads at call boundaries. Every instance's per-step results, getters and output bits must equal those of the same history run alone on one thread. non-trivial = >= 2 instances, >= 2 rounds with at least two busy threads, >= 1 migration. distinct = distinct case JSON digest.".into()
+        "cases = 2..16 resampler instances (all types, f32/f64) with their own histories and a schedule assigning the construction and every call of every instance to one of 1..16 OS threads; round r runs call r of all instances concurrently (barrier release), so instances overlap with each other and migrate between threads at call boundaries. Every instance's per-step results, getters and output bits must equal those of the same history run alone on a thread of its own. A third of the instances are near-twins of their predecessor (same parameters, ratio differing in the 6th or 10th digit, constructed on the same thread right after it); input amplitudes range down to the subnormal range. non-trivial = >= 2 instances, >= 2 rounds with at least two busy threads, >= 1 migration. distinct = distinct case JSON digest.".into()
     }
     fn assumptions(&self) -> Vec<String> {
         vec!["the harness decides which thread runs which call and what overlaps, not the instruction-level interleaving; a race needing a narrow window can be missed (exploration only)".into()]
@@ -218,9 +234,35 @@ impl Property for C18 {
             while call_cost(&cfg) * calls > 5e5 && cfg.chunk > 1 {
                 cfg.chunk = (cfg.chunk / 2).max(1);
             }
-            Inst { cfg, seed, ops, threads }
+            Inst { cfg, seed, ops, threads, amp_exp: 0 }
         });
-        (prop_oneof![1 => 2u8..=4, 2 => 5u8..=16], proptest::collection::vec(inst, 2..=16)).prop_map(|(n_threads, instances)| Case { n_threads, instances }).boxed()
+        let amp = prop_oneof![4 => Just(0i16), 1 => Just(-30i16), 1 => Just(-38i16), 1 => Just(-41i16), 1 => Just(-308i16), 1 => Just(-315i16)];
+        (prop_oneof![1 => 2u8..=4, 2 => 5u8..=16], proptest::collection::vec((inst, amp, 0u8..6), 2..=16))
+            .prop_map(|(n_threads, v)| {
+                let mut instances: Vec<Inst> = vec![];
+                for (mut inst, amp_exp, twin) in v {
+                    inst.amp_exp = amp_exp;
+                    // near-twins: the same parameters with a ratio that differs in the 6th..10th digit (or not at
+                    // all), constructed on the same thread right after each other: state that leaks from one
+                    // constructor to the next (a cached table, a memo) shows as a difference from the lone run
+                    if twin < 2 {
+                        if let Some(prev) = instances.last() {
+                            let mut t = prev.clone();
+                            t.cfg.ratio = prev.cfg.ratio * [1.0 + 1e-5, 1.0 + 1e-9][twin as usize];
+                            t.seed = inst.seed;
+                            t.ops = inst.ops.clone();
+                            if let (Some(a), Some(b)) = (t.threads.get_mut(0), prev.threads.first()) {
+                                *a = *b;
+                            }
+                            instances.push(t);
+                            continue;
+                        }
+                    }
+                    instances.push(inst);
+                }
+                Case { n_threads, instances }
+            })
+            .boxed()
     }
     fn cases(&self, tier: Tier) -> u32 {
         if tier.thorough() {
